@@ -177,14 +177,14 @@ def rand_program(cirq, cg, sympy, rng, depth=0):
             sub = cirq.Circuit(o for o in sub.all_operations() if not cirq.is_measurement(o) and not isinstance(o.untagged, cirq.ClassicallyControlledOperation))
             if not len(sub):
                 continue
-            reps = rng.choice([1, 1, 2, 3])
+            reps = rng.choice([1, 1, 2, 3, 0])
             op = cirq.CircuitOperation(sub.freeze(), repetitions=reps)
             if cirq.has_unitary(sub) and rng.random() < 0.3:
                 nreps = rng.choice([-1, -2])
                 op = cirq.CircuitOperation(sub.freeze(), repetitions=nreps, repetition_ids=[f'r{j}' for j in range(abs(nreps))] if rng.random() < 0.5 else None)
             elif rng.random() < 0.35:
                 # explicit repetition ids, used as key scopes or not
-                op = cirq.CircuitOperation(sub.freeze(), repetitions=reps, repetition_ids=[f'i{j}' for j in range(reps)], use_repetition_ids=rng.choice([True, False]))
+                op = cirq.CircuitOperation(sub.freeze(), repetitions=reps, repetition_ids=[f'i{j}' for j in range(reps)], use_repetition_ids=rng.choice([True, False])) if reps else op
             if rng.random() < 0.3:
                 op = op.with_tags(cg.CalibrationTag('c'))
         else:
@@ -296,6 +296,37 @@ def circuits_equivalent(cirq, sympy, a, b, path=''):
     return None
 
 
+def check_array_arguments(ctx, cirq, cg):
+    """arrays among the arguments written by arg_to_proto / internal_gate_arg_to_proto come back with their values at their places,
+    whatever their memory layout (C / Fortran order, transposed views, slices), dtype and shape"""
+    from cirq_google.serialization import arg_func_langs as afl
+
+    rng = ctx.substream('array-args')
+    for it in range(30 if ctx.tier == 'quick' else 300):
+        shape = tuple(rng.randint(1, 4) for _ in range(rng.choice([1, 2, 2, 3])))
+        dtype = rng.choice([np.float64, np.float64, np.float32, np.int64, np.int32, np.bool_])
+        base = np.array([rng.choice([0, 1, 2.5, -3, 7]) for _ in range(int(np.prod(shape)))]).reshape(shape).astype(dtype)
+        layout = rng.choice(['C', 'F', 'transposed', 'sliced'])
+        arr = {'C': lambda: np.ascontiguousarray(base), 'F': lambda: np.asfortranarray(base), 'transposed': lambda: np.ascontiguousarray(base.T).T,
+               'sliced': lambda: np.concatenate([base, base], axis=0)[: shape[0]]}[layout]()
+        ctx.count('check', 'array-args')
+        ctx.case(['array-arg', shape, np.dtype(dtype).name, layout], len(shape) >= 2)
+        for fname, to_p, from_p in (('arg', afl.arg_to_proto, afl.arg_from_proto), ('internal_gate_arg', getattr(afl, 'internal_gate_arg_to_proto', None), getattr(afl, 'internal_gate_arg_from_proto', None))):
+            if to_p is None or from_p is None:
+                continue
+            try:
+                back = from_p(to_p(arr))
+            except (ValueError, TypeError, NotImplementedError) as e:
+                ctx.count('array_args', f'{fname}:{np.dtype(dtype).name}:{type(e).__name__}')
+                continue
+            back = np.asarray(back)
+            if back.shape != arr.shape or not np.array_equal(back, arr):
+                ctx.report_witness('arg:array', f'{fname}_to_proto / _from_proto do not return an array argument with its values at their places',
+                                   {'lines': [{'shape': list(shape), 'dtype': np.dtype(dtype).name, 'layout': layout, 'array': arr.tolist()}], 'impl_out': [back.tolist()], 'spec_out': [arr.tolist()],
+                                    'theorem_or_correspondence': 'argument round trip'})
+                break
+
+
 def check_programs(ctx, cirq, cg, sympy, n):
     rng = ctx.substream('programs')
     ser = cg.CIRCUIT_SERIALIZER
@@ -309,6 +340,7 @@ def check_programs(ctx, cirq, cg, sympy, n):
         cirq.Circuit(cirq.CircuitOperation(cirq.FrozenCircuit(cirq.X(gq), cirq.measure(gq, key='m')), repetitions=2, repetition_ids=['a', 'b'], use_repetition_ids=True)),
         cirq.Circuit(cirq.CircuitOperation(cirq.FrozenCircuit(cirq.X(gq), cirq.measure(gq, key='m')), repetitions=2, use_repetition_ids=False)),
         cirq.Circuit(cirq.depolarize(0.0).on(gq)),
+        cirq.Circuit(cirq.X(gq), cirq.CircuitOperation(cirq.FrozenCircuit(cirq.X(gq) ** 0.5, cirq.Y(gq)), repetitions=0)),
         cirq.Circuit(cg.InternalGate(gate_name='g', gate_module='m', num_qubits=1, t=(1, 2, 3), u=(0.5, 1.5), names=('a', 'b'), mixed=(1, 'a')).on(gq)),
         cirq.Circuit(cirq.measure(gq, cirq.GridQubit(0, 1), key='m'), cirq.X(gq).with_classical_controls(cirq.BitMaskKeyCondition('m', index=-1, target_value=2**24 + 1, equal_target=True, bitmask=2**24 + 1))),
         cirq.Circuit(cirq.Z(gq).with_tags('a', cg.PhysicalZTag()), (cirq.Z(gq) ** 0.5).with_tags(cg.PhysicalZTag(), 'b'), cirq.X(gq).with_tags('x', cg.CalibrationTag('t'), 'y')),
@@ -677,6 +709,7 @@ def run(ctx: common.Run):
     check_bits(ctx, cirq, cg, n)
     check_results(ctx, cirq, cg, n)
     check_programs(ctx, cirq, cg, sympy, n * 2)
+    check_array_arguments(ctx, cirq, cg)
     check_sweeps(ctx, cirq, cg, n * 2)
     check_unit_sweeps(ctx, cirq, cg, max(20, n // 2))
     check_devices(ctx, cirq, cg, max(10, n // 3))
